@@ -264,7 +264,12 @@ class UnionConverter(Converter[t.Any]):
             except ParseInterrupt:
                 pass
             else:
-                return conv.into_data(val)
+                try:
+                    return conv.into_data(val)
+                except Exception:
+                    # this variant can read `val` as data, but `val` isn't one of its values
+                    # (e.g. a tuple which a dataclass would accept positionally): try the next one
+                    pass
         # default to regular conversion (by the value's own type, keeping our custom handlers)
         if isinstance(val, (str, bytes, int, bool, float, complex, type(None))):
             return into_data(val)
